@@ -79,6 +79,9 @@ pub fn run_server_case_with(case: &ServerCase, followup: Option<&Followup>) -> S
 
 /// `write_chunking`: the peer reads slowly - every write of the server is accepted in pieces of at
 /// most `.0` bytes with `.1` of virtual time between them
+/// `write_chunking.0` value meaning "the peer does not read at all"
+pub const WRITE_BLOCKED: usize = 0;
+
 pub fn run_server_case_io(case: &ServerCase, followup: Option<&Followup>, write_chunking: Option<(usize, Duration)>) -> ServerObs {
     let log: Log = Arc::new(Mutex::new(vec![]));
     let (map, refs) = build_map(&case.stores, &log);
@@ -106,7 +109,12 @@ pub fn run_server_case_io(case: &ServerCase, followup: Option<&Followup>, write_
         rt.block_on(async {
             let (io, handle) = sim_io(script, seq.clone());
             if let Some((k, d)) = write_chunking {
-                handle.set_write_chunking(k, d);
+                if k == WRITE_BLOCKED {
+                    // the peer never reads: no write ever completes
+                    handle.set_write_blocked(true);
+                } else {
+                    handle.set_write_chunking(k, d);
+                }
             }
             handle_slot = Some(handle.clone());
             let (tx, rx) = tokio::sync::mpsc::channel(8);
